@@ -121,7 +121,7 @@ fn base_params(r: &mut Rng, intent: Intent) -> Params {
         name: rnd_name(r), uuid: Uuid::from_u128(((r.next() as u128) << 64) | r.next() as u128),
         session_payload: None, auth_payload: None,
         enc: (TokenMode::Echo, SecretMode::Good16, KeyMode::ServerKey),
-        locale: r.pick(&["en_us", "de_de", "de_DE", "fr", "zh_CN_x", ""]).to_string(),
+        locale: r.pick(&["en_us", "de_de", "de_DE", "fr", "zh_CN_x", "", "aaaaaaaaaaaaaaa\u{e9}", "zh_Hant_TW_\u{4e2d}\u{6587}_\u{7e41}\u{9ad4}", "x-\u{1f600}\u{1f600}\u{1f600}\u{1f600}\u{1f600}"]).to_string(),
         ci_delay: 10 + 2 * r.below(30), ka: KaPolicy::Prompt(51 + 2 * r.below(100)), ping: r.next(),
     }
 }
@@ -466,7 +466,22 @@ fn main() {
                     }
                     // operator-chosen expiries other than the default, 0 included (every cookie older than the
                     // very second it was issued is then refused), with ages on both sides of each
-                    for (cfg_expiry, ages) in [(0u64, vec![0i64, 1, 30, 21_600]), (1, vec![0, 1, 2]), (60, vec![59, 60, 61, 120, 31_536_000]), (86_400, vec![21_601, 86_400, 86_401])] {
+                    // the claimed name equals the cookie's name but the claimed UUID is someone else's: the identity
+                    // used must still be the cookie's
+                    {
+                        let mut p = base_params(&mut r, Intent::Transfer);
+                        let c = AuthCookie { timestamp: FIXED_NOW - 9, client_addr: client, user_name: p.name.clone(),
+                            user_id: Uuid::from_u128(((r.next() as u128) << 64) | r.next() as u128), target: None, profile_properties: rnd_props(&mut r), extra: Default::default() };
+                        p.auth_payload = Some(passage_protocol::cookie::sign(&serde_json::to_vec(&c).unwrap(), &secret_v));
+                        let mut ads = base_ads(&mut r);
+                        if let Ok(d) = &mut ads.discover.0 { if d.is_empty() { d.push(rnd_target(&mut r, 0)); } }
+                        let sc = build("C02", &mut r, &p, ads, s.clone(), client, "valid cookie with the claimed name, other uuid".into());
+                        run(sc, &mut r);
+                    }
+                    for (cfg_expiry, ages) in [(0u64, vec![0i64, 1, 30, 21_600]), (1, vec![0, 1, 2]), (60, vec![59, 60, 61, 120, 31_536_000]), (86_400, vec![21_601, 86_400, 86_401]),
+                                               // expiries beyond 2^24 s, ages within a float's rounding step of them
+                                               (16_777_217, vec![16_777_216, 16_777_217, 16_777_218, 16_777_219]),
+                                               (315_360_000, vec![315_359_999, 315_360_000, 315_360_001, 315_360_005, 315_360_017, 315_360_040])] {
                         for age in ages {
                             let mut p = base_params(&mut r, Intent::Transfer);
                             p.auth_payload = Some(valid_auth_cookie(&mut r, &client, &secret_v, age, cfg_expiry, false));
